@@ -137,6 +137,8 @@ func main() {
 		os.Exit(cmdList(os.Args[2:]))
 	case "ssa":
 		os.Exit(cmdSSA(os.Args[2:]))
+	case "sweep":
+		os.Exit(cmdSweep(os.Args[2:]))
 	default:
 		usage()
 	}
@@ -223,6 +225,78 @@ func cmdSSA(args []string) int {
 	for _, k := range keys {
 		fmt.Println("=====", k)
 		e.fns[k].WriteTo(os.Stdout)
+	}
+	return 0
+}
+
+// cmdSweep (development aid for C07): for every function of the module that is not under contract yet,
+// generate the run-time-error obligations with zero annotation (nil dereferences not claimed) and report
+// which functions discharge completely; those can be added to the C07 sweep as they are.
+func cmdSweep(args []string) int {
+	e, err := load("/repo")
+	if err != nil {
+		fmt.Println(err)
+		return 2
+	}
+	if err := e.loadContracts("/verif", ""); err != nil {
+		fmt.Println(err)
+		return 2
+	}
+	var keys []string
+	for k, f := range e.fns {
+		if !strings.HasPrefix(k, modPrefix) || len(f.Blocks) == 0 {
+			continue
+		}
+		pos := e.prog.Fset.Position(f.Pos())
+		if strings.HasSuffix(pos.Filename, "_test.go") || strings.HasSuffix(pos.Filename, "_verif.go") || strings.Contains(pos.Filename, "/cfgtest/") {
+			continue
+		}
+		if len(args) > 0 && !strings.Contains(k, args[0]) {
+			continue
+		}
+		if c := e.spec.Contracts[k]; c != nil {
+			if c.hasProp("C07") || c.Trusted {
+				continue
+			}
+			continue // under contract for other properties: add C07 by hand if wanted
+		}
+		keys = append(keys, k)
+	}
+	sort.Strings(keys)
+	dir, _ := os.MkdirTemp("", "ucfgvc-sweep")
+	defer os.RemoveAll(dir)
+	for _, k := range keys {
+		parts := strings.SplitN(k, "::", 2)
+		e.spec.Contracts[k] = &Contract{Pkg: parts[0], Key: parts[1], Mode: "int", Loops: map[int]*LoopSpec{}, NoNil: true, Props: []string{"C07"}}
+		g := e.generate([]string{k}, "C07", "rte.", dir, false)
+		if len(g.toolErrs) > 0 {
+			fmt.Printf("TOOLERR %s: %s\n", k, g.toolErrs[0])
+			delete(e.spec.Contracts, k)
+			continue
+		}
+		solveAll(g.jobs, solveCfg{t1: 4, t2: 8, par: 14})
+		bad := 0
+		var first string
+		for _, j := range g.jobs {
+			if j.o.Kind != "cover" && j.status != "unsat" {
+				bad++
+				if first == "" {
+					first = j.o.Name
+				}
+			}
+		}
+		n := 0
+		for _, j := range g.jobs {
+			if j.o.Kind != "cover" {
+				n++
+			}
+		}
+		st := "CLEAN"
+		if bad > 0 {
+			st = "FAILS"
+		}
+		fmt.Printf("%s %s obligations=%d failing=%d %s\n", st, k, n, bad, first)
+		delete(e.spec.Contracts, k)
 	}
 	return 0
 }
